@@ -146,6 +146,6 @@ def selftest(argv):
     missed = [(r["name"], p) for r in results for p, x in r.get("results", {}).items() if not x["detected"]]
     errors = [r["name"] for r in results if "error" in r]
     out = {"at": time.strftime("%Y-%m-%dT%H:%M:%SZ", time.gmtime()), "tier": tier, "results": results, "missed": missed, "errors": errors}
-    json.dump(out, open(os.path.join(VERIF, "selftest_results.json"), "w"), indent=1)
+    json.dump(out, open(os.environ.get("DNSMON_SELFTEST_RESULTS", os.path.join(VERIF, "selftest_results.json")), "w"), indent=1)
     print("selftest: %d mutants, %d (mutant, property) pairs missed, %d errors" % (len(results), len(missed), len(errors)))
     return 0 if not missed and not errors else 1
